@@ -173,7 +173,7 @@ fn g_strategy() -> impl Strategy<Value = G> {
         2 => (0u8..5, any::<bool>()).prop_map(|(kind, equal)| G::Eq2Other { kind, equal }),
         4 => (idx(), -50i16..50, 0u8..9, 0u8..9, any::<bool>()).prop_map(|(unit, a, d, eps, neg)| G::Eq3Exact { unit, a, d, eps, neg }),
         4 => (idx(), idx(), idx(), any::<u32>(), idx(), 0u8..6).prop_map(|(ua, ub, ue, salt, a, ratio)| G::Eq3Units { ua, ub, ue, salt, a, ratio }),
-        1 => (any::<bool>(), idx()).prop_map(|(three, unit)| G::Nan { three, unit }),
+        2 => (any::<bool>(), idx()).prop_map(|(three, unit)| G::Nan { three, unit }),
     ]
 }
 
@@ -300,6 +300,30 @@ fn build(g: &G) -> Case {
         }
         G::Nan { three, unit } => {
             let u = spelling(&cat, pick_idx(*unit, n), *unit as u64 ^ 9);
+            // infinities: equal ones are equal (two-argument form succeeds), their difference is
+            // NaN (three-argument form fails), opposite ones differ
+            let which = (*unit as usize / 7) % 6;
+            if which > 0 {
+                let (stmt, ok, kind) = match (which, *three) {
+                    (1, false) => (format!("assert_eq(inf {0}, inf {0})", u.ident), true, "AssertEq2Failed"),
+                    (2, false) => (format!("assert_eq(-inf {0}, -inf {0})", u.ident), true, "AssertEq2Failed"),
+                    (3, false) => (format!("assert_eq(inf {0}, -inf {0})", u.ident), false, "AssertEq2Failed"),
+                    (4, false) => (format!("assert_eq(inf {0}, 3 {0})", u.ident), false, "AssertEq2Failed"),
+                    (5, false) => (format!("assert_eq(2 * inf {0}, inf {0})", u.ident), true, "AssertEq2Failed"),
+                    (1, true) | (2, true) => (format!("assert_eq(inf {0}, inf {0}, 1 {0})", u.ident), false, "AssertEq3Failed"),
+                    (3, true) => (format!("assert_eq(1 {0}, inf {0}, 5 {0})", u.ident), false, "AssertEq3Failed"),
+                    (4, true) => (format!("assert_eq(-inf {0}, inf {0}, 5 {0})", u.ident), false, "AssertEq3Failed"),
+                    _ => (format!("assert_eq(1 {0}, 2 {0}, inf {0})", u.ident), true, "AssertEq3Failed"),
+                };
+                return Case {
+                    stmt,
+                    setup: String::new(),
+                    expect_success: ok,
+                    fail_kind: kind.into(),
+                    class: "infinity".into(),
+                    nontrivial: true,
+                };
+            }
             if *three {
                 Case {
                     stmt: format!("assert_eq(NaN {0}, 1 {0}, 5 {0})", u.ident),
@@ -326,7 +350,7 @@ fn build(g: &G) -> Case {
 fn run(cfg: &Cfg) -> Report {
     let mut rep = Report::new(
         cfg,
-        "proptest-generated assertions, each placed between marker statements (`print(\"before\")` / `print(\"after\")`, a definition, `print(\"end\")`) in one input: assert(c) for boolean expression trees with a reference truth value; assert_eq(a,b) for quantities in the same unit (exact dyadic values), in different units (b obtained by numbat's own conversion => must succeed; b scaled by a factor away from 1 => must fail), strings/booleans/lists; assert_eq(a,b,eps) with exact dyadic values including the boundary |a-b| = eps, and with a, b, eps in three different units of one dimension where |a-b| and eps differ by a factor >= 1.1; NaN operands. Oracle: success iff the documented predicate holds; on failure the error kind is the assertion's, nothing after the assertion ran (no print, the later definition does not exist); on success everything ran. non-trivial = different units, boundary, non-quantity or NaN case; distinct = input text",
+        "proptest-generated assertions, each placed between marker statements (`print(\"before\")` / `print(\"after\")`, a definition, `print(\"end\")`) in one input: assert(c) for boolean expression trees with a reference truth value; assert_eq(a,b) for quantities in the same unit (exact dyadic values), in different units (b obtained by numbat's own conversion => must succeed; b scaled by a factor away from 1 => must fail), strings/booleans/lists; assert_eq(a,b,eps) with exact dyadic values including the boundary |a-b| = eps, and with a, b, eps in three different units of one dimension where |a-b| and eps differ by a factor >= 1.1; NaN and infinite operands (equal infinities are equal, their difference is not within any tolerance). Oracle: success iff the documented predicate holds; on failure the error kind is the assertion's, nothing after the assertion ran (no print, the later definition does not exist); on success everything ran. non-trivial = different units, boundary, non-quantity or NaN case; distinct = input text",
     );
     let cases = cfg.tier.pick(8000u32, 60000u32);
     rep.absorb(run_proptest(
